@@ -7,7 +7,41 @@ TB = ("Trusted base: Lean 4.33 kernel; axioms propext, Classical.choice, Quot.so
       "no native_decide, no bv_decide, no sorry); the correspondence check (tools/*.py + harness/) that ties the hand model to "
       "the code; rustc. ")
 
+SYN = ("Modelled, not verified: logos' derived automaton as longest match + rule priority + one-char error tokens (rule table, priorities, "
+       "callback and skip flags are regenerated from kind.rs); rowan's GreenNodeBuilder as a stack of open nodes; the translator xlate "
+       "(Rust/syn -> DSL) is validated on every run by the differential of the generated model against parse_module. ")
+
 CHECKS = {
+ "C01": dict(
+  technique="Lean 4 proof over the xlate-generated parser/lexer/tree-builder model + differential against parse_module",
+  text=("Generic Lean theorems for every DSL program and every text: the lexer tiles its input with non-empty tokens (lex_tiles), only bump "
+        "moves the position and emits one Advance (exec_advances), a well-shaped main consumes every token (main_consumes_all), events are "
+        "balanced, and the tree builder under a sound policy returns a tree whose leaves are the raw tokens (buildTree_lossless); the side "
+        "conditions are decided on the GENERATED program and policy on every run (glas_mainShape, glas_policyOK, glas_rootStart, glas_noSkip), "
+        "giving C01_lossless for the model of parse_module, with or without syntax errors (Props/C01.lean). Tie: generated model vs parse_module on "
+        "~10^5 inputs (exhaustive token-class sequences to length 3/4, corpus, prefixes, grammar-generated and mutated programs); the round-trip "
+        "oracle is evaluated on the implementation."),
+  note=TB + SYN, ref="5.C01, 4.1, Appendix A"),
+ "C02": dict(
+  technique="Lean 4 certificate checker with proved soundness, run by kernel evaluation on the xlate-generated parser program",
+  text=("check : Prog -> Bool abstractly executes every grammar function (current-token sets, facts about locals, consumed-since flags, call "
+        "summaries with ranks); check_sound_safe and check_sound_terminates are proved once for all programs; glas_checked evaluates the checker on "
+        "the program regenerated from parser.rs (decide +kernel). Hence for every token list: no assert! fails, bump is never called at end of input, "
+        "every loop iteration and recursion cycle consumes a token, fuel 746+745*len suffices (C02_safe, C02_terminates). PARTIAL: the parser's own "
+        "look-ahead guard (`parser is stuck`) and recursion depth are NOT bounded on the current tree - kernel-evaluated witnesses in "
+        "Props/C02Witness.lean, replayed on the implementation and listed in known_findings.json; mark discipline (no leaked/misused marks, builder "
+        "never panics) is covered by the differential only."),
+  note=TB + SYN + "Not modelled: the Rust call stack (depth is observed in the model as a number; the abort is observed on the implementation).",
+  ref="5.C02, Appendix A.2-A.5"),
+ "C04": dict(
+  technique="Lean 4 decision of the generated binding-power tables + reference-grammar oracle (translation validation for the rest)",
+  text=("Proved (kernel decision on the tables regenerated from infix_bp/prefix_bp): infix operators are exactly Gleam's, all left-associative, "
+        "levels ordered || < && < ==,!= < comparisons < <> < |> < additive < multiplicative, prefix operators tighter than any binary one, the "
+        "no-assoc error cannot fire (Props/C04.lean). The rest of the grammar is validated, not proved: programs of a reference grammar "
+        "(tools/gen_gleam.py) with the expected tree by construction, rendered with random legal trivia, compared with the implementation's tree; all "
+        "operator pairs/triples against precedence climbing; generated DSL model vs implementation on the same programs."),
+  note=TB + SYN + "The whole-grammar claim parse(print ast) = shape ast is checked by differential, not proved.",
+  ref="5.C04"),
  "C13": dict(
   technique="Lean 4 proof over hand model M-text + exhaustive small-domain correspondence with the real Vfs/convert",
   text=("Lean theorems about the model of LineMap/from_range/change_file_content (lean/Glas/Model/Text.lean): a valid LSP position "
